@@ -399,9 +399,11 @@ func (ex *Exec) explore(st *State, b *ssa.BasicBlock, from *Cut, cuts map[*ssa.B
 			} else {
 				y := s.clone()
 				y.assume(c)
+				y.branches = append(y.branches, c)
 				y.prev = b
 				ex.explore(y, b.Succs[0], from, cuts, start, false, emit)
 				s.assume(Not(c))
+				s.branches = append(s.branches, Not(c))
 				s.prev = b
 				ex.explore(s, b.Succs[1], from, cuts, start, false, emit)
 			}
